@@ -249,6 +249,7 @@ fn run(plan: C07Plan) -> RunOutcome {
                 });
                 cluster.settle();
                 // stored counts never go down (C08); the model keeps the maximum
+                *out.faults.entry(if *count < model.counts[*txn] { "stale_lower_confirmation_count" } else if *count == model.counts[*txn] { "duplicate_confirmation" } else { "confirmation_out_of_order_or_new" }.to_string()).or_insert(0) += 1;
                 if *count > model.counts[*txn] {
                     model.counts[*txn] = *count;
                 }
@@ -331,6 +332,7 @@ fn run(plan: C07Plan) -> RunOutcome {
                 cluster.start_node(0);
                 cluster.run_until(cluster.now_ms + 20);
                 *probes.entry("node_restarted".into()).or_insert(0) += 1;
+                *out.faults.entry("node_restart".into()).or_insert(0) += 1;
             }
             _ => {}
         }
